@@ -63,7 +63,8 @@ ModelOut(cfg, in) ==
     agree |-> ValidatedTakesShadow(in) = PredecodeTakesShadow(in)]
 
 \* IdP-signed roots with a namespace-qualified shadow are outside C20's quantifier
-InScope(in) == ~(in.rootsig = "signed" /\ in.var.v = "qualified")
+\* (with the qualified shadow LAST the two agree even then: both take it)
+InScope(in) == ~(in.rootsig = "signed" /\ in.var.v = "qualified" /\ in.var.pos = "first")
 \* o: [res, pre : [ok, agree]]
 C20_OK(cfg, in, o) == (o.res = "accept" /\ InScope(in)) => (o.pre.ok /\ o.pre.agree)
 C09_OK(cfg, in, o) == o.res \in {"accept", "reject"}
